@@ -450,3 +450,76 @@ def removed_neighbors(tier, seed):
             if f:
                 fails.append(f)
     return {'evaluations': evals, 'distinct_nontrivial': evals, 'exhaustive': True, 'bound': 'a second neighbor deleted by the new configuration: passive / active x session up / down', 'rule': 'one case = (passive, session state); all four distinct', 'samples': [{'removed_neighbor_passive': True, 'session_up_during_reload': False}], 'failures': fails}
+
+
+# ---------------------------------------------------------------------------------------------------------------------
+# several reloads with no turn of the peer loop in between (two SIGUSR1, an editor which writes twice: the main loop
+# reloads again before the peer tasks run): the peer must end with the LAST configuration, whatever the intermediate ones
+def chain_case(specs, up):
+    inp = {'configurations': specs, 'session_up_during_reloads': up}
+    try:
+        w = World(specs[0])
+        key = list(w.peers())[0]
+        w.connect(key)
+        w.turn(key)
+        if not up:
+            w.disconnect(key)
+        for spec in specs[1:]:
+            if w.reload(spec) is not True:
+                return {'what': f'a valid new configuration was refused: {w.reactor.configuration.error}', 'input': inp}
+        if key not in w.peers():
+            return None
+        if not up:
+            w.connect(key)
+        for _ in range(3):
+            w.turn(key)
+    except Exception as e:  # noqa
+        import traceback
+
+        return {'what': f'reload path raised {type(e).__name__}: {str(e)[:200]}', 'input': inp, 'trace': traceback.format_exc()[-600:]}
+    want = expected_table(specs[-1], [])
+    got = w.tables[key].table
+    if want != got:
+        return {'what': 'after several reloads in a row the peer does not hold exactly the last configuration', 'input': inp, 'expected': str(sorted(want.items())), 'observed': str(sorted(got.items()))}
+    return None
+
+
+@region('C17-attribute-flap-in-one-window')
+def attribute_flap_region(failure):
+    """the recorded defect C04-stale-attribute-bucket seen through reloads: within ONE flush window (reloads in a row, or
+    reloads while the session is down) a prefix is queued under two different attribute sets and then changed or removed
+    again; OutgoingRIB keeps the superseded entry in its old attribute bucket.  Only chains in which some prefix takes two
+    different attribute values in the configurations AFTER the first; every other chain stays a violation."""
+    confs = failure.get('input', {}).get('configurations') or []
+    if 'after several reloads in a row' not in failure.get('what', '') or len(confs) < 4:
+        return False
+    for name in ('A', 'B', 'C'):
+        vals = [c['routes'][name] for c in confs[1:] if name in c['routes']]
+        if len(set(vals)) >= 2:
+            return True
+    return False
+
+
+@bounded('C17', 'reloads-in-a-row')
+def reloads_in_a_row(tier, seed):
+    route_sets = [{'A': 10}, {'A': 10, 'B': None}, {'A': 20, 'B': None}, {'B': None, 'C': 5}, {}]
+    fails, evals = [], 0
+    chains = [c for c in itertools.product(route_sets, repeat=3)]
+    if tier == 'thorough':
+        chains += [c for c in itertools.product(route_sets[:4], repeat=4)]
+    else:
+        chains += [c for c in itertools.product(route_sets[:4], repeat=4)][5::17]
+        chains.append((route_sets[0], route_sets[2], route_sets[0], route_sets[3]))  # the recorded attribute flap
+    for chain in chains:
+        for up in (True, False):
+            evals += 1
+            f = chain_case([dict(routes=r, hold=180) for r in chain], up)
+            if f:
+                fails.append(f)
+    fails.sort(key=lambda f: len(str(f['input'])))
+    return {'evaluations': evals, 'distinct_nontrivial': evals, 'exhaustive': True, 'bound': f'every chain of 3 configurations (thorough: also 4) over {len(route_sets)} route sets (3 prefixes, an attribute-only change, the empty set), the reloads issued back to back with no turn of the peer loop in between, session up or down meanwhile', 'rule': 'one case = (chain of configurations, session state)', 'samples': [{'configurations': [{'A': 10, 'B': None}, {'A': 10}, {'A': 10}]}], 'failures': fails[:20]}
+
+
+@replayer('C17', 'reloads-in-a-row')
+def _replay_chain(f):
+    return chain_case(f['input']['configurations'], f['input']['session_up_during_reloads']) is None
